@@ -60,6 +60,19 @@ def str_mangled(v, out):
             return True
         if isinstance(out, dict):
             return True
-    if isinstance(v, (list, tuple, set, frozenset, dict)) and isinstance(out, (str, bytes)):
+    if isinstance(v, (list, tuple, set, frozenset, dict)) and isinstance(out, str):
         return True
     return False
+
+
+def same_value(a, b):
+    """equality that treats NaN as equal to itself (recursively through the standard containers)"""
+    if type(a) is not type(b):
+        return False
+    if isinstance(a, float):
+        return a == b or (a != a and b != b)
+    if isinstance(a, (list, tuple)):
+        return len(a) == len(b) and all(same_value(x, y) for x, y in zip(a, b))
+    if isinstance(a, dict):
+        return a.keys() == b.keys() and all(same_value(a[k], b[k]) for k in a)
+    return a == b
